@@ -95,3 +95,70 @@ Definition show_compile (params : list (str * str)) (s : str) : str :=
   | CFuel => [70; 85; 69; 76]
   | CInternal => [73; 78; 84; 69; 82; 78; 65; 76]
   end.
+
+(** ** Walk *)
+From PQL Require Export Model.Walk Model.Cli.
+
+Definition show_visit (v : visit) : str :=
+  match v with
+  | VNode (GN k _ as n) => nkind_name k ++ [58] ++ show_span (gspan n)
+  | VNil => [78; 73; 76]
+  end.
+
+(** [mask]: the visitor returns false on its mask-th call (none if [None]) *)
+Definition mask_visitor (mask : option nat) (i : nat) (_ : gnode) : bool :=
+  match mask with Some m => negb (Nat.eqb i m) | None => true end.
+
+Definition show_walk (mask : option nat) (s : str) : str :=
+  match parse s with
+  | ParseOk ss =>
+    let rs := map (fun st => walk (mask_visitor mask) (g_stmt st)) ss in
+    if existsb (fun r => match r with WOk _ => false | _ => true end) rs then
+      (if existsb (fun r => match r with WFuel => true | _ => false end) rs then [70; 85; 69; 76] else [80; 65; 78; 73; 67])
+    else [79; 75] ++ flat_map (fun r => match r with WOk vs => [32; 124] ++ flat_map (fun v => 32 :: show_visit v) vs | _ => [] end) rs
+  | _ => [69; 82; 82]
+  end.
+
+(** ** literal accessors *)
+Definition show_bool (b : bool) : str := if b then [116] else [102].
+Definition show_lit (s : str) : str :=
+  match scan s with
+  | [t] =>
+    match tkind t with
+    | KNumber | KString =>
+      show_bool (lit_is_integer (tkind t) (tvalue t)) ++ [32] ++ show_bool (lit_is_float (tkind t) (tvalue t)) ++ [32]
+      ++ match lit_uint64 (tkind t) (tvalue t) with Some n => N_to_dec n | None => [45] end
+    | _ => [45]
+    end
+  | _ => [45]
+  end.
+
+(** ** command line *)
+(** [bufio.ScanLines] with the 64 KiB token limit: lines without their line end (one
+    trailing CR stripped), a final unterminated line if non-empty, [ReadError] at the first
+    line whose content reaches the limit. *)
+Fixpoint take_line (l : str) : str * option str :=
+  match l with
+  | [] => ([], None)
+  | c :: r => if c =? 10 then ([], Some r) else let '(a, b) := take_line r in (c :: a, b)
+  end.
+
+Definition strip_cr (l : str) : str :=
+  match rev l with 13 :: r => rev r | _ => l end.
+
+Fixpoint events_of (fuel : nat) (script : str) : list event :=
+  match fuel with
+  | O => []
+  | S f =>
+    match script with
+    | [] => []
+    | _ =>
+      let '(line, rest) := take_line script in
+      if (65536 <=? N.of_nat (length line))%N then [ReadError]
+      else Line (strip_cr line) :: match rest with Some r => events_of f r | None => [] end
+    end
+  end.
+
+Definition show_cli (script : str) : str :=
+  let o := run (events_of (S (length script)) script) in
+  (if o_fail o then [49] else [48]) ++ [32] ++ hex_of (o_stdout o).
